@@ -1,5 +1,6 @@
 #!/bin/sh
 # tools/try_patch.sh <prop> <patch.diff> [check args]: apply a seeded change to /repo, run the check, undo.
+if ! git -C /repo diff --quiet; then echo "REFUSING: /repo has uncommitted changes to tracked files (commit the contract files first)"; exit 9; fi
 id="$1"; patch="$2"; shift 2
 git -C /repo apply "$patch" || { echo "patch does not apply"; exit 3; }
 (cd /verif && ./check "$id" "$@")
